@@ -12,7 +12,7 @@ SPEC = {
     "level": "exploration",
     "design_ref": "DESIGN.md section 5, C20",
     "rule": ("cases = every file derivable from a small grammar: 1-3 blocks drawn from {every shape of W-DAG(3) and W-DIG(3,4), zero-vertex block}; per block 1-2 header lines, "
-             "0-2 '#S' lines (incl. an exact duplicate and a one-node line), optional blank lines before the count / between edge lines / at the end, optional leading whitespace, "
+             "0-4 '#S' lines (incl. an exact duplicate, a one-node line, and on cyclic graphs different walk-shaped sequences over the same arcs), optional blank lines before the count / between edge lines / at the end, optional leading whitespace, "
              "weights written as 3 / 2.5 / 1e1; then EVERY single-line corruption of each file (token removed from / added to an edge line, non-numeric weight, non-numeric or "
              "missing vertex count, constraint arc absent from the graph). Oracle = the generating description (arcs, weights, id, constraints, n, m, width by the cover oracle); "
              "corruptions must raise ValueError. non-trivial = distinct well-formed file with >= 1 arc parsed and compared, plus distinct corruption rejected"),
@@ -51,7 +51,17 @@ def _block_descr(shape, seed, idx, variant):
                 break
         if len(seqs) >= 3:
             break
-    return {"names": names, "arcs": [list(a) for a in arcs], "ws": ws, "seqs": seqs}
+    # walk-shaped constraint lines on cyclic graphs: different node sequences over the same set of arcs
+    wseqs = []
+    aset = set(arcs)
+    for (u, v) in arcs:
+        if u == v:
+            wseqs = [[u, u], [u, u, u]]
+            break
+        if (v, u) in aset:
+            wseqs = [[u, v, u], [v, u, v], [u, v, u, v, u]]
+            break
+    return {"names": names, "arcs": [list(a) for a in arcs], "ws": ws, "seqs": seqs, "wseqs": wseqs}
 
 
 def render(blocks):
@@ -84,8 +94,12 @@ def cases(tier, seed):
     for idx, shp in enumerate(shapes):
         for li, lay in enumerate(LAYOUTS):
             d = _block_descr(shp, seed, idx, li)
-            for cm in range(4):
-                if cm == 0:
+            for cm in range(5):
+                if cm == 4:
+                    if not d["wseqs"]:
+                        continue
+                    sl = d["wseqs"] + d["wseqs"][:1]
+                elif cm == 0:
                     sl = []
                 elif cm == 1:
                     sl = d["seqs"][:1]
@@ -94,7 +108,7 @@ def cases(tier, seed):
                 else:
                     sl = d["seqs"][:1] + [[d["names"][0]]] + d["seqs"][-1:]  # a one-node line defines no constraint
                 blocks.append({"descr": d, "layout": lay, "slines": sl, "id": f"graph {idx}.{li}.{cm} name = g{idx}", "zero": False})
-    zero = {"descr": {"names": [], "arcs": [], "ws": [], "seqs": []}, "layout": LAYOUTS[0], "slines": [], "id": "empty graph", "zero": True}
+    zero = {"descr": {"names": [], "arcs": [], "ws": [], "seqs": [], "wseqs": []}, "layout": LAYOUTS[0], "slines": [], "id": "empty graph", "zero": True}
     # single-block files (with all corruptions), then multi-block files
     for i, b in enumerate(blocks):
         yield {"blocks": [b], "corrupt": True, "trailing_blank": i % 2 == 0}
